@@ -3,7 +3,8 @@ import AscentVerif.Proofs.C15ExpandList
 import AscentVerif.Proofs.C15ExpandDiv
 import AscentVerif.Proofs.C15ExpandErr
 /-!
-# C15: macro expansion — rejection of self-referential macros, success within the depth budget, unreachable panics
+# C15: macro expansion — rejection of self-referential macros and of macros that reach an empty disjunction, success
+within the depth budget, no panic anywhere in the pipeline
 -/
 namespace AscentVerif.Check
 open AscentVerif AscentVerif.Engine
@@ -40,6 +41,15 @@ theorem self_referential_head_rejected (s : Summary) (D : Name → Prop) (hr : R
     (h : ∃ r ∈ s.rules, ∃ hd ∈ r.heads, ∃ m, D m ∧ HInvokes hd m) : Rejected s := by
   obtain ⟨r, hr', hheads⟩ := h
   obtain ⟨e, he⟩ := expandRule_head_diverging s.macros D hD r hheads
+  obtain ⟨e', he'⟩ := desugar_error_of_expandRule hr' he
+  exact rejected_of_desugar_error hr he'
+
+/-- every program one of whose rules invokes (at any position) a macro from which an empty disjunction is
+reached through invocations is rejected -/
+theorem reachesEmptyDisj_rejected (s : Summary) (D : Name → Prop) (hr : Reaches s) (hD : ReachesEmptyDisj s.macros D)
+    (h : ∃ r ∈ s.rules, ∃ it ∈ r.body, ∃ m, D m ∧ Invokes it m) : Rejected s := by
+  obtain ⟨r, hr', hbody⟩ := h
+  obtain ⟨e, he⟩ := expandRule_reachesEmptyDisj s.macros D hD r hbody
   obtain ⟨e', he'⟩ := desugar_error_of_expandRule hr' he
   exact rejected_of_desugar_error hr he'
 
@@ -129,15 +139,17 @@ theorem expandItem_noMac (ms : List MacroDef) :
           · cases h
           · split at h
             · cases h
-            · dsimp only at h
-              split at h
+            · split at h
               · cases h
-              · rename_i inner hinner
-                rw [flattenP_ok h]
-                intro x hx
-                obtain ⟨l, hl, hxl⟩ := List.mem_flatten.1 hx
-                obtain ⟨z, hz, hfz⟩ := mapLazy_ok_mem hinner hl
-                exact ih _ _ _ _ hfz x hxl
+              · dsimp only at h
+                split at h
+                · cases h
+                · rename_i inner hinner
+                  rw [flattenP_ok h]
+                  intro x hx
+                  obtain ⟨l, hl, hxl⟩ := List.mem_flatten.1 hx
+                  obtain ⟨z, hz, hfz⟩ := mapLazy_ok_mem hinner hl
+                  exact ih _ _ _ _ hfz x hxl
 
 mutual
 theorem prodItem_noMac' : ∀ (it : Item), NoMac it → ∃ conjs, prodItem it = .ok conjs
@@ -220,9 +232,9 @@ theorem desugar_no_leftover (ms : List MacroDef) (rules : List Rule) : desugar m
   cases this
 
 /-- every error of the pipeline belongs to one of the stages -/
-theorem check_panic_or {s : Summary} {e : Err} (h : check s = .error e) :
+theorem check_error_stage {s : Summary} {e : Err} (h : check s = .error e) :
     e.parseErr = true ∨ e = .includeInSource ∨ e.expandErr = true ∨ e.hirErr = true ∨ e.attrErr = true ∨
-      e = .strat ∨ e = .panicAggBound ∨ e = .panicSigName ∨ e = .panicSigGenerics := by
+      e.sigErr = true ∨ e = .strat := by
   rcases check_error_cases h with h | h | h
   · exact Or.inl (parseItems_err _ _ h)
   · exact Or.inr (Or.inl h)
@@ -231,69 +243,20 @@ theorem check_panic_or {s : Summary} {e : Err} (h : check s = .error e) :
     · exact Or.inr (Or.inr (Or.inr (Or.inl (hirRules_err _ _ h))))
     · exact Or.inr (Or.inr (Or.inr (Or.inr (Or.inl (configCheck_err h)))))
     · exact Or.inr (Or.inr (Or.inr (Or.inr (Or.inl (declsCheck_err _ _ h)))))
-    · exact Or.inr (Or.inr (Or.inr (Or.inr (Or.inr (Or.inl h)))))
-    · rcases codegenCheck_err h with ⟨h, _⟩ | ⟨h | h, _⟩
-      · exact Or.inr (Or.inr (Or.inr (Or.inr (Or.inr (Or.inr (Or.inl h))))))
-      · exact Or.inr (Or.inr (Or.inr (Or.inr (Or.inr (Or.inr (Or.inr (Or.inl h)))))))
-      · exact Or.inr (Or.inr (Or.inr (Or.inr (Or.inr (Or.inr (Or.inr (Or.inr h)))))))
+    · exact Or.inr (Or.inr (Or.inr (Or.inr (Or.inr (Or.inl (sigCheck_err h))))))
+    · exact Or.inr (Or.inr (Or.inr (Or.inr (Or.inr (Or.inr h)))))
 
 theorem check_no_leftover (s : Summary) : check s ≠ .error .panicLeftover := by
   intro h
-  have := check_panic_or h
+  have := check_error_stage h
   revert this
   decide
 
-/-- a panic of the pipeline is one of the three recorded sites (four before fix 71f89c5 made
-`flatten_punctuated` total) -/
-theorem check_panic_sites (s : Summary) (e : Err) (h : check s = .error e) (hp : e.isPanic = true) :
-    e = .panicAggBound ∨ e = .panicSigName ∨ e = .panicSigGenerics := by
-  have := check_panic_or h
-  revert this hp
+/-- no stage of the pipeline returns a panic: since the fixes 71f89c5 (`flatten_punctuated`), 5862f99 (aggregated
+variable) and dfbe0be (signatures) every answer of the macro is `ok` or a proper error -/
+theorem check_no_panic (s : Summary) (e : Err) (h : check s = .error e) : e.isPanic = false := by
+  have := check_error_stage h
+  revert this
   cases e <;> decide
 
-/-- an error that no earlier stage returns comes from code generation -/
-theorem check_codegen {s : Summary} {e : Err} (h : check s = .error e) (h1 : e.parseErr = false)
-    (h2 : e ≠ .includeInSource) (h3 : e.expandErr = false) (h4 : e.hirErr = false ∧ e.attrErr = false)
-    (h5 : e ≠ .strat) :
-    ∃ rules, desugar s.macros s.rules = .ok rules ∧ codegenCheck rules s.sig = .error e := by
-  rcases check_error_cases h with h | h | h
-  · rw [parseItems_err _ _ h] at h1
-    cases h1
-  · exact absurd h h2
-  · rcases compile_error_cases h with h | ⟨rules, hd, h | h | h | h | h⟩
-    · rw [desugar_err h] at h3
-      cases h3
-    · rw [hirRules_err _ _ h] at h4
-      cases h4.1
-    · rw [configCheck_err h] at h4
-      cases h4.2
-    · rw [declsCheck_err _ _ h] at h4
-      cases h4.2
-    · exact absurd h h5
-    · exact ⟨rules, hd, h⟩
-
-/-- and the code-generation panics occur exactly in their classes -/
-theorem check_panicAggBound (s : Summary) (h : check s = .error .panicAggBound) :
-    ∃ rules, desugar s.macros s.rules = .ok rules ∧ ∃ r ∈ rules, ∃ ev ∈ r.body, aggBoundOk ev = false := by
-  obtain ⟨rules, hd, hc⟩ := check_codegen h (by decide) (by decide) (by decide) (by decide) (by decide)
-  refine ⟨rules, hd, ?_⟩
-  rcases codegenCheck_err hc with ⟨_, hany⟩ | ⟨h' | h', _⟩
-  · simp only [List.any_eq_true, Bool.not_eq_true'] at hany
-    exact hany
-  · cases h'
-  · cases h'
-
-theorem check_panicSig (s : Summary) (h : check s = .error .panicSigName ∨ check s = .error .panicSigGenerics) :
-    ∃ sg i, s.sig = some sg ∧ sg.implName = some i ∧ (i ≠ sg.structName ∨ sg.genericsMatch = false) := by
-  rcases h with h | h
-  · obtain ⟨rules, _, hc⟩ := check_codegen h (by decide) (by decide) (by decide) (by decide) (by decide)
-    rcases codegenCheck_err hc with ⟨h', _⟩ | ⟨_, h'⟩
-    · cases h'
-    · exact h'
-  · obtain ⟨rules, _, hc⟩ := check_codegen h (by decide) (by decide) (by decide) (by decide) (by decide)
-    rcases codegenCheck_err hc with ⟨h', _⟩ | ⟨_, h'⟩
-    · cases h'
-    · exact h'
-
 end AscentVerif.Check
-
